@@ -141,11 +141,73 @@ def filter_skips_collapsed(ctx, rep, p):
     return bool(rows) and all(accept == (not collapsed) for (collapsed, accept) in rows) and {c_ for c_, _ in rows} == {True, False}
 
 
+def resolve_process_polygon(ctx, rep=None):
+    """the private per-ring routine, by name or - after a rename / reordering of its parameters - by what it is: the function of
+    fill_queue.rs (other than fill_queue) that takes a `&LineString` and creates the events.  Its parameters get the canonical
+    names from their types and from where they flow (the two booleans: 5th and 6th argument of the public SweepEvent::new_rc)."""
+    f = ctx.facts()
+    if PROCESS in f.bodies:
+        return PROCESS
+    cache = getattr(ctx, '_resolved_pp', None)
+    if cache is None:
+        cache = ctx._resolved_pp = {}
+    if ctx.config in cache:
+        return cache[ctx.config]
+    cands = []
+    for n, b in f.bodies.items():
+        if not n.startswith('boolean::fill_queue::') or n == FILL or '{closure' in n or b.j.get('promoted') is not None:
+            continue
+        tys = [b.locals[i]['ty'] for i in range(1, b.arg_count + 1)]
+        if any(re.match(r'^&(\'\w+ )?geo_types::LineString<', ty) for ty in tys) and b.loops():
+            cands.append(n)
+    res = None
+    if len(cands) == 1:
+        n = cands[0]
+        b = f.bodies[n]
+        tys = [b.locals[i]['ty'] for i in range(1, b.arg_count + 1)]
+        names = [None] * b.arg_count
+        for i, ty in enumerate(tys):
+            if 'LineString<' in ty:
+                names[i] = 'contour_or_hole'
+            elif ty == 'u32':
+                names[i] = 'contour_id'
+            elif 'BinaryHeap<' in ty:
+                names[i] = 'event_queue'
+            elif 'BoundingBox<' in ty:
+                names[i] = 'bbox'
+        bools = [i for i, ty in enumerate(tys) if ty == 'bool']
+        if len(bools) == 2 and all(x is not None for j, x in enumerate(names) if j not in bools):
+            # which boolean reaches which argument of new_rc
+            sym.CANON_PARAMS[n] = [x or ('flag%d' % j) for j, x in enumerate(names)]
+            try:
+                bb, ps = ctx.paths(n)
+                roles = {}
+                for p in ps:
+                    for e in p.calls(depth0=False):
+                        if e['callee'].endswith('SweepEvent::<F>::new_rc') and len(e['args']) == 6:
+                            for pos, role in ((4, 'is_subject'), (5, 'is_exterior_ring')):
+                                a = strip_upd(e['args'][pos])
+                                if a[0] == 'param' and (a[1] - 1) in bools:
+                                    roles.setdefault(a[1] - 1, set()).add(role)
+                if all(len(roles.get(j, ())) == 1 for j in bools) and {next(iter(roles[j])) for j in bools} == {'is_subject', 'is_exterior_ring'}:
+                    for j in bools:
+                        names[j] = next(iter(roles[j]))
+                    sym.CANON_PARAMS[n] = names
+                    ctx._paths = {k: v for k, v in ctx._paths.items() if k[0] != n}
+                    res = n
+                else:
+                    del sym.CANON_PARAMS[n]
+            except sym.CannotAnalyse:
+                sym.CANON_PARAMS.pop(n, None)
+    cache[ctx.config] = res
+    return res
+
+
 # ------------------------------------------------------------------------------- process_polygon
 
 def check_process_polygon(ctx, rep, rules=('S-fill', 'W-left', 'W-collapsed', 'W-iter', 'B-acc')):
     R_FILL, R_LEFT, R_COLL, R_ITER, R_ACC = rules
-    b, ps = rep.explore(ctx, PROCESS, R_FILL)
+    b, ps = rep.explore(ctx, resolve_process_polygon(ctx) or PROCESS, R_FILL)
     if b is None:
         return
     n_paths = 0
@@ -298,11 +360,21 @@ def check_fill_queue(ctx, rep, rules=('B-acc', 'X-opsites', 'W-iter')):
             return actual[v[1] - 1]
         return tuple(subst_params(x, actual) if isinstance(x, tuple) else x for x in v)
 
+    PP = resolve_process_polygon(ctx) or PROCESS
+    CANON_ORDER = ['contour_or_hole', 'is_subject', 'contour_id', 'event_queue', 'bbox', 'is_exterior_ring']
+    roles = sym.CANON_PARAMS.get(PP, CANON_ORDER)
+
+    def canon_args(args):
+        """arguments of the per-ring routine in the canonical order, whatever order its parameters are declared in"""
+        if len(args) == 6 and sorted(roles) == sorted(CANON_ORDER):
+            return tuple(args[roles.index(r)] for r in CANON_ORDER)
+        return tuple(args)
+
     def pp_calls(p):
         """process_polygon calls of a path, including those made by local helper functions it calls (one level)"""
         for e in p.calls():
-            if e['callee'].endswith('process_polygon'):
-                yield e['line'], e['args']
+            if e['callee'] == PP:
+                yield e['line'], canon_args(e['args'])
             elif e['callee'] in ctx.facts().bodies and not e.get('inlined'):
                 try:
                     hb, hps = ctx.paths(e['callee'])
@@ -310,12 +382,12 @@ def check_fill_queue(ctx, rep, rules=('B-acc', 'X-opsites', 'W-iter')):
                     continue
                 seen_h = set()
                 for hp in hps:
-                    for he in hp.calls('process_polygon'):
-                        if he['line'] in seen_h:
+                    for he in hp.calls():
+                        if he['callee'] != PP or he['line'] in seen_h:
                             continue
                         seen_h.add(he['line'])
                         rep.analysed.add(e['callee'])
-                        yield (e['line'], he['line']), tuple(subst_params(a, e['args']) for a in he['args'])
+                        yield (e['line'], he['line']), canon_args(tuple(subst_params(a, e['args']) for a in he['args']))
 
     for p in ps:
         for line_, a in pp_calls(p):
@@ -365,7 +437,7 @@ def check_fill_queue(ctx, rep, rules=('B-acc', 'X-opsites', 'W-iter')):
     for p in ps:
         for e in p.calls():
             cn = e['callee']
-            if cn.endswith('process_polygon') or cn not in ctx.facts().bodies or e.get('inlined') or (cn, e['line']) in descended:
+            if cn == PP or cn not in ctx.facts().bodies or e.get('inlined') or (cn, e['line']) in descended:
                 continue
             try:
                 hb, hps = ctx.paths(cn)
@@ -418,14 +490,14 @@ def check_fill_queue(ctx, rep, rules=('B-acc', 'X-opsites', 'W-iter')):
                 continue            # the same helper path, reached from another call site
             seen_iter.add(k)
         n_iter += 1
-        called = any(e['k'] == 'call' and e['depth'] == 0 and (e['callee'].endswith('process_polygon') or
+        called = any(e['k'] == 'call' and e['depth'] == 0 and (e['callee'] == PP or
                      (e['callee'] in ctx.facts().bodies and not e.get('inlined'))) for e in p.events[last:])
         rep.ob(R_OPS, 'every-ring-queued', called,
                'a path through a polygon/ring loop of %s reaches the next iteration without calling process_polygon: some ring of '
                'an operand is not queued (conditions: %s)' % (short(ub.id), [show(noepoch(v))[:50] for v, _ in p.conds][-3:]),
                loc=ub.loc(ub.j['line_lo']), reason='dominance')
     rep.floor(R_OPS, 'loop iteration paths of fill_queue', n_iter, 4)
-    allowed = {('fill_queue::process_polygon', 5)}
+    allowed = {(short(PP), roles.index('is_exterior_ring') if 'is_exterior_ring' in roles else 5)}
     extra = sorted(u for u in uses if u[0] != 'branch' and u not in allowed)
     rep.ob(R_OPS, 'operation-reaches-only-exterior-flag', not extra,
            'fill_queue lets the operation influence %s (allowed: the exterior flag of clipping rings and their contour ids)' % extra,
